@@ -213,6 +213,13 @@ func h1Oracles(env *Env, c *H1Cfg, st *h1State, hr *h1Run, runIdx int, stats sim
 			}
 		}
 	}
+	if c.RacyHelper && (hr.HaveResult || hr.HaveCounts) && passN+failN == hr.Snap.Succ+hr.Snap.Fail {
+		// bodies hand an error report over to a goroutine they do not wait for: whether it lands before the iteration's
+		// outcome is read is the scheduler's choice, so each such iteration may legitimately count either way. What
+		// still must hold: every iteration is counted once, and the result, the exported metrics and the output agree.
+		passN, failN = hr.Snap.Succ, hr.Snap.Fail
+		env.Hit("h1.racy_helper_runs")
+	}
 	if failN > 0 {
 		env.Cover["h1.failed_bodies"] += failN
 	}
